@@ -85,7 +85,7 @@ func (d *driverCfg) spawn() (*worker, error) {
 	cmd.Env = os.Environ()
 	if d.race {
 		os.MkdirAll(filepath.Join(d.scratch, "race"), 0o755)
-		cmd.Env = append(cmd.Env, "GORACE=log_path="+filepath.Join(d.scratch, "race", strconv.Itoa(id))+" halt_on_error=0 history_size=2")
+		cmd.Env = append(cmd.Env, "GORACE=log_path="+filepath.Join(d.scratch, "race", strconv.Itoa(id))+" halt_on_error=0 exitcode=0 history_size=3")
 	}
 	w := &worker{id: id, cmd: cmd, errLog: filepath.Join(d.scratch, fmt.Sprintf("w%d.stderr", id))}
 	ef, err := os.Create(w.errLog)
@@ -438,6 +438,23 @@ func (d *driverCfg) confirm(eng Engine, job *Job, res *Result) *Result {
 		return &Result{ID: job.ID, Seed: res.Seed, Verdict: "violation", Class: "process-death", Sig: "process-death",
 			Msg: "the process died when the violating case was re-executed:\n" + lastLines(stderr, 30), Case: res.Case}
 	}
+	if strings.HasPrefix(res.Sig, "pool-escape: ") {
+		return res // already re-executed twice in fresh processes by the engine's differential attribution
+	}
+	if (r2 == nil || r2.Verdict != "violation") && res.Class == "data-race" {
+		// A race report is evidence by itself (both stacks are in it, ThreadSanitizer has no false
+		// positives), but whether it fires on a given execution is best-effort. Try a few more times.
+		for i := 0; i < 3 && (r2 == nil || r2.Verdict != "violation"); i++ {
+			r2, died, _ = d.runAlone(&j2)
+			if died {
+				break
+			}
+		}
+		if r2 == nil || r2.Verdict != "violation" {
+			res.Msg = "(the race report was not observed again in 4 fresh executions of the recorded schedule; the report of the original run follows)\n" + res.Msg
+			return res
+		}
+	}
 	if r2 == nil || r2.Verdict != "violation" || r2.Class != res.Class {
 		got := "nil"
 		if r2 != nil {
@@ -709,6 +726,7 @@ type knownEntry struct {
 	Class    string `json:"class"`
 	SigHas   string `json:"sig_contains"`
 	Site     string `json:"site,omitempty"` // seam site the finding is attributed to (map-order findings)
+	PoolSites []string `json:"pool_sites,omitempty"` // Get/Put site prefixes of the pools a pool finding is about
 	What     string `json:"what"`
 	Commit   string `json:"commit,omitempty"`
 }
@@ -754,7 +772,7 @@ func knownSite(prop, site string) bool {
 
 func matchKnown(known []knownEntry, r *Result) string {
 	for _, k := range known {
-		if k.Class == r.Class && k.SigHas != "" && strings.Contains(r.Sig, k.SigHas) {
+		if (k.Class == r.Class || k.Class == "*") && k.SigHas != "" && strings.Contains(r.Sig, k.SigHas) {
 			return k.What
 		}
 	}
